@@ -9,6 +9,7 @@ import (
 	"encoding/binary"
 	"encoding/json"
 	"fmt"
+	"io"
 	"os"
 	"sort"
 	"strconv"
@@ -66,11 +67,51 @@ func (bodyWalker) Decode(sr stream.Reader) error {
 	return err
 }
 
-// callAPI performs exactly one decoding call of the named API on msg.
-func callAPI(name string, msg []byte) error {
+// isStreamAPI reports whether the API reads from an io.Reader (else: io.ReaderAt).
+func isStreamAPI(name string) bool {
+	switch name {
+	case "stream/skip", "stream/skip-seekable", "stream/read", "envelope/ReadEnvelopeBegin", "request/ReadRequest", "frame/Read":
+		return true
+	}
+	return strings.HasPrefix(name, "gen/Decode/")
+}
+
+// The concrete source types of the grids (Case.Src; "" = the historical one:
+// chunkio's plain non-seekable reader, resp. *bytes.Reader). The mutated unit
+// draws from all of chunkio's.
+var (
+	gridStreamSrcs = []string{"", chunkio.SrcBytesBuffer, chunkio.SrcBytesReader, chunkio.SrcBufio}
+	gridAtSrcs     = []string{"", chunkio.SrcPlainAt}
+	allStreamSrcs  = append([]string{""}, chunkio.StreamSrcs...)
+	allAtSrcs      = []string{"", chunkio.SrcPlainAt, chunkio.SrcStringsReader, chunkio.SrcSection}
+)
+
+// withSrcs is the case once per concrete source type of its API's class.
+func withSrcs(c Case) []Case {
+	srcs := gridAtSrcs
+	switch {
+	case c.API == "stream/skip-seekable":
+		return []Case{c} // kept for recorded cases: stream/skip over a *bytes.Reader
+	case isStreamAPI(c.API):
+		srcs = gridStreamSrcs
+	}
+	out := make([]Case, 0, len(srcs))
+	for _, s := range srcs {
+		x := c
+		x.Src = s
+		out = append(out, x)
+	}
+	return out
+}
+
+// callAPI performs exactly one decoding call of the named API on msg, read
+// from a source of the concrete type src.
+func callAPI(name string, msg []byte, src string) error {
+	stream := func() io.Reader { return chunkio.New(msg, chunkio.Plan{Src: src}) }
+	at := func() io.ReaderAt { return chunkio.NewAt(msg, chunkio.AtPlan{Src: src, EagerEOF: true}) }
 	switch {
 	case name == "ra/decode+force":
-		v, err := tbinary.Default.Decode(bytes.NewReader(msg), wire.TStruct)
+		v, err := tbinary.Default.Decode(at(), wire.TStruct)
 		if err != nil {
 			return err
 		}
@@ -80,19 +121,19 @@ func callAPI(name string, msg []byte) error {
 		// thriftrw's own slice helpers, which trust Size()
 		switch strings.TrimPrefix(name, "ra/toplevel-") {
 		case "list+ToSlice":
-			v, err := tbinary.Default.Decode(bytes.NewReader(msg), wire.TList)
+			v, err := tbinary.Default.Decode(at(), wire.TList)
 			if err != nil {
 				return err
 			}
 			_ = wire.ValueListToSlice(v.GetList())
 		case "set+ToSlice":
-			v, err := tbinary.Default.Decode(bytes.NewReader(msg), wire.TSet)
+			v, err := tbinary.Default.Decode(at(), wire.TSet)
 			if err != nil {
 				return err
 			}
 			_ = wire.ValueListToSlice(v.GetSet())
 		case "map+ToSlice":
-			v, err := tbinary.Default.Decode(bytes.NewReader(msg), wire.TMap)
+			v, err := tbinary.Default.Decode(at(), wire.TMap)
 			if err != nil {
 				return err
 			}
@@ -100,26 +141,30 @@ func callAPI(name string, msg []byte) error {
 		}
 		return nil
 	case name == "stream/skip":
-		sr := tbinary.Default.Reader(chunkio.New(msg, chunkio.Plan{}))
+		sr := tbinary.Default.Reader(stream())
 		defer sr.Close()
 		return sr.Skip(wire.TStruct)
 	case name == "stream/skip-seekable":
-		sr := tbinary.Default.Reader(bytes.NewReader(msg))
+		var r io.Reader = bytes.NewReader(msg)
+		if src != "" {
+			r = stream()
+		}
+		sr := tbinary.Default.Reader(r)
 		defer sr.Close()
 		return sr.Skip(wire.TStruct)
 	case name == "stream/read":
-		sr := tbinary.Default.Reader(chunkio.New(msg, chunkio.Plan{}))
+		sr := tbinary.Default.Reader(stream())
 		defer sr.Close()
 		_, err := bridge.StreamRead(sr, wm.KStruct)
 		return err
 	case name == "envelope/DecodeEnveloped":
-		e, err := tbinary.Default.DecodeEnveloped(bytes.NewReader(msg))
+		e, err := tbinary.Default.DecodeEnveloped(at())
 		if err != nil {
 			return err
 		}
 		return wire.EvaluateValue(e.Value)
 	case name == "envelope/ReadEnvelopeBegin":
-		sr := tbinary.Default.Reader(chunkio.New(msg, chunkio.Plan{}))
+		sr := tbinary.Default.Reader(stream())
 		defer sr.Close()
 		if _, err := sr.ReadEnvelopeBegin(); err != nil {
 			return err
@@ -127,28 +172,28 @@ func callAPI(name string, msg []byte) error {
 		_, err := bridge.StreamRead(sr, wm.KStruct)
 		return err
 	case name == "request/DecodeRequest":
-		v, _, err := tbinary.Default.DecodeRequest(wire.Call, bytes.NewReader(msg))
+		v, _, err := tbinary.Default.DecodeRequest(wire.Call, at())
 		if err != nil {
 			return err
 		}
 		return wire.EvaluateValue(v)
 	case name == "request/ReadRequest":
-		_, err := tbinary.Default.ReadRequest(context.Background(), wire.Call, chunkio.New(msg, chunkio.Plan{}), bodyWalker{})
+		_, err := tbinary.Default.ReadRequest(context.Background(), wire.Call, stream(), bodyWalker{})
 		return err
 	case name == "frame/Read":
-		fr := verifhook.NewFrameReader(chunkio.New(msg, chunkio.Plan{}))
+		fr := verifhook.NewFrameReader(stream())
 		_, err := fr.Read()
 		return err
 	case strings.HasPrefix(name, "gen/FromWire/"):
 		x := apiTypes[strings.TrimPrefix(name, "gen/FromWire/")]()
-		v, err := tbinary.Default.Decode(bytes.NewReader(msg), wire.TStruct)
+		v, err := tbinary.Default.Decode(at(), wire.TStruct)
 		if err != nil {
 			return err
 		}
 		return x.FromWire(v)
 	case strings.HasPrefix(name, "gen/Decode/"):
 		x := apiTypes[strings.TrimPrefix(name, "gen/Decode/")]()
-		sr := tbinary.Default.Reader(chunkio.New(msg, chunkio.Plan{}))
+		sr := tbinary.Default.Reader(stream())
 		defer sr.Close()
 		return x.Decode(sr)
 	}
@@ -164,7 +209,7 @@ func TestChildAlloc(t *testing.T) {
 	if !allocprobe.InChild() {
 		t.Skip("child only")
 	}
-	if err := allocprobe.ChildLoop(func(c Case) error { return callAPI(c.API, c.Msg) }); err != nil {
+	if err := allocprobe.ChildLoop(func(c Case) error { return callAPI(c.API, c.Msg, c.Src) }); err != nil {
 		t.Fatal(err)
 	}
 }
@@ -186,13 +231,21 @@ func scratchDir(t testing.TB) string {
 
 // evaluate measures the cases and reports verdicts. A CPU breach is re-measured
 // alone (twice) before it counts.
-func evaluate(t *testing.T, unit string, cases []Case) {
+//
+// It reports whether every case was measured (after allocprobe.MaxCPUStops
+// stopped children the rest of a failed batch is skipped).
+func evaluate(t *testing.T, unit string, cases []Case) (complete bool) {
 	res, err := measure(cases, scratchDir(t))
 	if err != nil {
 		t.Fatalf("environment: %v", err)
 	}
+	complete = true
 	for i, c := range cases {
 		r := res[i]
+		if r.Status == "skipped" {
+			complete = false
+			continue
+		}
 		if r.CPU > cpuLimit && !strings.HasPrefix(r.Status, "killed") {
 			for k := 0; k < 2 && r.CPU > cpuLimit; k++ {
 				rr, err := measure([]Case{c}, scratchDir(t))
@@ -201,16 +254,32 @@ func evaluate(t *testing.T, unit string, cases []Case) {
 				}
 			}
 		}
-		d := ev.Digest([]byte(c.API), c.Msg)
+		d := ev.Digest([]byte(c.API), c.Msg, []byte(fmt.Sprintf("%s|%d|%d|%d", c.Src, c.PadAt, c.PadN, c.PadFill)))
 		nontriv := c.L >= 1<<16 || c.Pos == "mutated"
-		ev.Case(d, nontriv, "api:"+apiClass(c.API), "pos:"+c.Pos, "status:"+strings.SplitN(r.Status, ":", 2)[0], fmt.Sprintf("L:%s", lClass(c.L)))
+		cls := []string{"api:" + apiClass(c.API), "pos:" + c.Pos, "status:" + strings.SplitN(r.Status, ":", 2)[0], fmt.Sprintf("L:%s", lClass(c.L)), "src:" + srcClass(c)}
+		if c.PadN > 0 {
+			cls = append(cls, fmt.Sprintf("payload:1MiB%+d", c.PadN-1<<20))
+		}
+		ev.Case(d, nontriv, cls...)
 		if nontriv {
 			ev.KeepSample(unit, d, func() interface{} {
-				return map[string]interface{}{"api": c.API, "pos": c.Pos, "L": c.L, "msg_hex": fmt.Sprintf("%x", c.Msg), "alloc_bytes": r.Alloc, "cpu": r.CPU.String(), "status": r.Status}
+				return map[string]interface{}{"api": c.API, "src": srcClass(c), "pos": c.Pos, "L": c.L, "msg_hex": fmt.Sprintf("%x", c.Msg), "pad_at": c.PadAt, "pad_n": c.PadN, "alloc_bytes": r.Alloc, "cpu": r.CPU.String(), "status": r.Status}
 			})
 		}
 		ev.ReportSoft(t, unit, c, verdict(c, r))
 	}
+	return complete
+}
+
+// srcClass names the concrete source type of the case.
+func srcClass(c Case) string {
+	switch {
+	case c.Src != "":
+		return c.Src
+	case c.API == "stream/skip-seekable" || !isStreamAPI(c.API):
+		return chunkio.SrcBytesReader
+	}
+	return "chunkio.Reader"
 }
 
 func apiClass(a string) string {
@@ -283,7 +352,69 @@ func cat(bs ...[]byte) []byte {
 	return out
 }
 
+// Long payloads: the value really is longer than the stream reader's 1 MiB
+// threshold (so whatever is done "after the first chunk has arrived" happens),
+// declares far more, and the message ends with the payload.
+var (
+	longPayloads = []int{1 << 20, 1<<20 + 1, 1<<20 + 4096}
+	longDeclared = []int64{1 << 29, 1<<31 - 1}
+)
+
+// longBodies returns (position name, prefix up to and including the hostile
+// length) of a bare struct for every position that carries a binary length;
+// the payload is appended symbolically (Case.Pad*).
+func longBodies(L int64) [][2]interface{} {
+	var out [][2]interface{}
+	add := func(pos string, b []byte) { out = append(out, [2]interface{}{pos, b}) }
+	add("binary-length", cat(fieldHdr(11, 1), be32(L)))
+	add("nested/list<binary>-inner-length", cat(fieldHdr(15, 1), []byte{11}, be32(2), be32(L)))
+	add("nested/set<binary>-inner-length", cat(fieldHdr(14, 1), []byte{11}, be32(2), be32(L)))
+	add("nested/map<binary,i32>-key-length", cat(fieldHdr(13, 1), []byte{11, 8}, be32(1), be32(L)))
+	add("nested/map<i32,binary>-value-length", cat(fieldHdr(13, 1), []byte{8, 11}, be32(1), be32(7), be32(L)))
+	add("nested/struct-field-binary-length", cat(fieldHdr(12, 1), fieldHdr(11, 2), be32(L)))
+	add("second-binary-length", cat(fieldHdr(11, 1), be32(3), []byte("abc"), fieldHdr(11, 2), be32(L)))
+	return out
+}
+
+const strictVersion = int64(int32(-2147418111)) // 0x80010001: version 1, Call
+
+func longCases() []Case {
+	var cases []Case
+	add := func(api string, prefix []byte, pos string, L int64, n int) {
+		cases = append(cases, withSrcs(Case{API: api, Msg: prefix, Pos: "long-payload/" + pos, L: L, PadAt: len(prefix), PadN: n, PadFill: 'x'})...)
+	}
+	envAPIs := []string{"envelope/DecodeEnveloped", "envelope/ReadEnvelopeBegin", "request/DecodeRequest", "request/ReadRequest"}
+	for _, L := range longDeclared {
+		for _, n := range longPayloads {
+			for _, pb := range longBodies(L) {
+				pos, body := pb[0].(string), pb[1].([]byte)
+				for _, a := range plainAPIs {
+					add(a, body, pos, L, n)
+				}
+				env := cat(be32(strictVersion), be32(2), []byte("ab"), be32(1), body)
+				for _, a := range envAPIs {
+					add(a, env, "enveloped-body/"+pos, L, n)
+				}
+			}
+			for _, a := range envAPIs {
+				add(a, cat(be32(strictVersion), be32(L)), "strict-envelope-name-length", L, n)
+				add(a, be32(L), "legacy-envelope-name-length", L, n)
+			}
+			add("frame/Read", be32(L), "frame-length", L, n)
+		}
+	}
+	return cases
+}
+
 func gridCases() []Case {
+	cases := longCases()
+	for _, c := range shortGridCases() {
+		cases = append(cases, withSrcs(c)...)
+	}
+	return cases
+}
+
+func shortGridCases() []Case {
 	var cases []Case
 	for _, L := range hostile {
 		for _, pb := range structBodies(L) {
@@ -339,33 +470,73 @@ func genCases(t testing.TB) []Case {
 		}
 		for _, f := range ss.Fields {
 			root := compile.RootTypeSpec(f.Type)
+			add := func(c Case) {
+				// a container header announcing the declared element type: the open finding K1 (the
+				// streaming decoder pre-sizes from the count, before it touches the source again) makes
+				// each of these cost up to gigabytes; over the further source types only the two small counts
+				k1 := strings.HasSuffix(c.Pos, "-count") && c.L > 1<<20
+				c.Pos = fmt.Sprintf("%s.%s/%s", n, f.Name, c.Pos)
+				for _, a := range []string{"gen/FromWire/", "gen/Decode/"} {
+					c.API = a + n
+					for _, x := range withSrcs(c) {
+						if k1 && x.Src != "" && a == "gen/Decode/" {
+							continue
+						}
+						cases = append(cases, x)
+					}
+				}
+			}
 			for _, L := range hostile {
-				var body []byte
-				pos := ""
 				few := []byte{0, 0, 0, 1, 0, 0, 0, 0}
 				switch r := root.(type) {
 				case *compile.ListSpec:
-					body = cat(fieldHdr(15, f.ID), []byte{byte(compile.RootTypeSpec(r.ValueSpec).TypeCode())}, be32(L), few)
-					pos = "list-count"
+					e := byte(compile.RootTypeSpec(r.ValueSpec).TypeCode())
+					add(Case{Msg: cat(fieldHdr(15, f.ID), []byte{e}, be32(L), few), Pos: "list-count", L: L})
+					// the same header announcing another element type: the generated reader skips the elements one by one
+					for _, m := range mismatches(e) {
+						add(Case{Msg: cat(fieldHdr(15, f.ID), []byte{m}, be32(L), few), Pos: "list-count-of-" + wm.Kind(m).String(), L: L})
+					}
 				case *compile.SetSpec:
-					body = cat(fieldHdr(14, f.ID), []byte{byte(compile.RootTypeSpec(r.ValueSpec).TypeCode())}, be32(L), few)
-					pos = "set-count"
+					e := byte(compile.RootTypeSpec(r.ValueSpec).TypeCode())
+					add(Case{Msg: cat(fieldHdr(14, f.ID), []byte{e}, be32(L), few), Pos: "set-count", L: L})
+					for _, m := range mismatches(e) {
+						add(Case{Msg: cat(fieldHdr(14, f.ID), []byte{m}, be32(L), few), Pos: "set-count-of-" + wm.Kind(m).String(), L: L})
+					}
 				case *compile.MapSpec:
-					body = cat(fieldHdr(13, f.ID), []byte{byte(compile.RootTypeSpec(r.KeySpec).TypeCode()), byte(compile.RootTypeSpec(r.ValueSpec).TypeCode())}, be32(L), few)
-					pos = "map-count"
+					k, v := byte(compile.RootTypeSpec(r.KeySpec).TypeCode()), byte(compile.RootTypeSpec(r.ValueSpec).TypeCode())
+					add(Case{Msg: cat(fieldHdr(13, f.ID), []byte{k, v}, be32(L), few), Pos: "map-count", L: L})
+					k2, v2 := mismatches(k)[0], mismatches(v)[1]
+					for _, kv := range [][2]byte{{k2, v}, {k, v2}, {k2, v2}} {
+						add(Case{Msg: cat(fieldHdr(13, f.ID), []byte{kv[0], kv[1]}, be32(L), few), Pos: "map-count-of-" + wm.Kind(kv[0]).String() + "," + wm.Kind(kv[1]).String(), L: L})
+					}
 				case *compile.StringSpec, *compile.BinarySpec:
-					body = cat(fieldHdr(11, f.ID), be32(L), []byte("abcd"))
-					pos = "binary-length"
-				default:
-					continue
+					add(Case{Msg: cat(fieldHdr(11, f.ID), be32(L), []byte("abcd")), Pos: "binary-length", L: L})
 				}
-				pos = fmt.Sprintf("%s.%s/%s", n, f.Name, pos)
-				cases = append(cases, Case{API: "gen/FromWire/" + n, Msg: body, Pos: pos, L: L})
-				cases = append(cases, Case{API: "gen/Decode/" + n, Msg: body, Pos: pos, L: L})
+			}
+			switch root.(type) {
+			case *compile.StringSpec, *compile.BinarySpec:
+				for _, L := range longDeclared {
+					for _, np := range longPayloads {
+						h := cat(fieldHdr(11, f.ID), be32(L))
+						add(Case{Msg: h, Pos: "long-binary", L: L, PadAt: len(h), PadN: np, PadFill: 'x'})
+					}
+				}
 			}
 		}
 	}
 	return cases
+}
+
+// mismatches returns four element type codes other than e: fixed-width ones
+// (i64, bool, i32, i8) and binary.
+func mismatches(e byte) []byte {
+	var out []byte
+	for _, m := range []byte{byte(wm.KI64), byte(wm.KBool), byte(wm.KI32), byte(wm.KBinary), byte(wm.KI8)} {
+		if m != e && len(out) < 4 {
+			out = append(out, m)
+		}
+	}
+	return out
 }
 
 func shardOf(cases []Case) []Case {
@@ -387,15 +558,15 @@ func shardOf(cases []Case) []Case {
 // value x API).
 func TestGrid(t *testing.T) {
 	all := gridCases()
-	evaluate(t, "grid", shardOf(all))
-	ev.Exhaustive(fmt.Sprintf("length-position grid: %d positions x %d hostile values x APIs = %d cases", len(structBodies(1))+3, len(hostile), len(all)), true)
+	done := evaluate(t, "grid", shardOf(all))
+	ev.Exhaustive(fmt.Sprintf("length-position grid: (%d positions x %d hostile values on short messages + %d binary-length positions x %d declared lengths x %d real payloads just above 1 MiB) x APIs x concrete source types (%d stream, %d random-access) = %d cases", len(structBodies(1))+3, len(hostile), len(longBodies(1))+3, len(longDeclared), len(longPayloads), len(gridStreamSrcs), len(gridAtSrcs), len(all)), done)
 }
 
 // TestGenGrid: every container/binary field of the generated plugin API types.
 func TestGenGrid(t *testing.T) {
 	all := genCases(t)
-	evaluate(t, "gen-grid", shardOf(all))
-	ev.Exhaustive(fmt.Sprintf("plugin/api generated types: every container or binary field x %d hostile values x {FromWire,Decode} = %d cases", len(hostile), len(all)), true)
+	done := evaluate(t, "gen-grid", shardOf(all))
+	ev.Exhaustive(fmt.Sprintf("plugin/api generated types: every container or binary field x %d hostile values (containers also announcing up to 4 other element types) + long payloads for every string / binary field, x {FromWire,Decode} x concrete source types = %d cases", len(hostile), len(all)), done)
 }
 
 // TestMutated: random short messages from the mutation engine, all APIs.
@@ -425,7 +596,11 @@ func TestMutated(t *testing.T) {
 		default:
 			a = rapid.SampledFrom(plainAPIs).Draw(t, "api")
 		}
-		batch = append(batch, Case{API: a, Msg: msg, Pos: "mutated"})
+		srcs := allAtSrcs
+		if isStreamAPI(a) {
+			srcs = allStreamSrcs
+		}
+		batch = append(batch, Case{API: a, Msg: msg, Pos: "mutated", Src: rapid.SampledFrom(srcs).Draw(t, "src")})
 	})
 	// rapid only generated the inputs; they are measured in child processes here
 	evaluate(t, "mutated", batch)
